@@ -167,6 +167,56 @@ pub fn run(tier: Tier) -> i32 {
         rep.merge(acc);
         rep.part(json!({"part": "directed: storages of 65535..131075 bytes in the pool", "sizes": [65535, 65536, 65537, 65540, 70000, 131072, 131075]}));
     }
+    // directed: long runs of one packet on a live object (no restore). The snapshot-based closure and the depth-bounded live
+    // pass cannot see state that needs more than a handful of operations to build up (a counter of consecutive refusals,
+    // a statistic that saturates); here every packet of the receiver alphabet is repeated n times for run lengths up to
+    // 300 (past every 8-bit counter), delivered storages handed back as a caller would, then the recovery probes follow.
+    {
+        let alph = crate::rxalpha::alphabet(2);
+        let lens: Vec<usize> = (1..=24).chain([31, 32, 33, 63, 64, 65, 100, 127, 128, 129, 200, 254, 255, 256, 257, 300]).collect();
+        let cells: Vec<(usize, usize)> = (0..alph.len()).flat_map(|q| lens.iter().map(move |&n| (q, n))).collect();
+        cells.par_iter().for_each(|&(q, n)| {
+            let mut acc = Acc::default();
+            let pkt = &alph[q];
+            for probe in 0..2 {
+                let mut d = RxS::new(2, 4, &[4, 4]).build(DefaultCrc {}, mgr.clone());
+                let mut last = String::new();
+                for _ in 0..n {
+                    let o = do_decap(&mut d, &pkt.bytes);
+                    last = o.class();
+                    if let DecapOut::Completed { buf, .. } = o {
+                        let _ = d.provision_storage(vec![0u8; buf.len()].into_boxed_slice());
+                    }
+                }
+                acc.states += 1;
+                acc.transitions += n as u64 + 2;
+                acc.calls += n as u64 + 2;
+                acc.compared += 1;
+                d.reset_last_label();
+                let _ = d.provision_storage(vec![0u8; 4].into_boxed_slice());
+                let wit = |probe_pkts: Vec<String>| json!({"packets": std::iter::repeat(hex(&pkt.bytes)).take(n).chain(probe_pkts.into_iter()).collect::<Vec<_>>(), "run": {"packet": pkt.name, "times": n, "each_answered": last}, "receiver": {"slots": 2, "storage": 4, "buffers": 2}});
+                if probe == 0 {
+                    let c = Desc::complete(L3B, 0x86DD, &PDU_Z).print();
+                    let out = do_decap(&mut d, &c);
+                    acc.outcome(&format!("long-run:complete-probe:{}", out.class()));
+                    if let Some(why) = expect_completed(&out, &PDU_Z, 0x86DD, L3B, c.len()) {
+                        rep.violation(&format!("C16|long-run|complete-probe|{}", out.class()), n as u64, || (format!("after {} x packet '{}' (each answered {}), reset + provision: a valid complete packet is not delivered: {}", n, pkt.name, last, why), wit(vec![hex(&c)])));
+                    }
+                } else {
+                    let (p1, p2, p3, _) = train(L6B, 2, &PDU_Z, 0x0800);
+                    let o1 = do_decap(&mut d, &p1);
+                    let o2 = do_decap(&mut d, &p2);
+                    let o3 = do_decap(&mut d, &p3);
+                    acc.outcome(&format!("long-run:train-probe:{}/{}/{}", o1.class(), o2.class(), o3.class()));
+                    if let Some(why) = expect_completed(&o3, &PDU_Z, 0x0800, L6B, p3.len()) {
+                        rep.violation(&format!("C16|long-run|train-probe|{}", o1.class()), n as u64, || (format!("after {} x packet '{}' (each answered {}), reset + provision: a valid 3-fragment PDU on frag id 2 is not delivered: {} / {} / {} ({})", n, pkt.name, last, o1.brief(), o2.brief(), o3.class(), why), wit(vec![hex(&p1), hex(&p2), hex(&p3)])));
+                    }
+                }
+            }
+            rep.merge(acc);
+        });
+        rep.part(json!({"part": "directed: long runs of one alphabet packet on a live receiver, then the recovery probes", "packets": alph.len(), "run_lengths": lens}));
+    }
     // hidden-state robustness: every history up to a small depth on live objects (no restore)
     for slots in [1usize, 2] {
         crate::live::live_pass(&rep, "C16", crate::live::Oracle::Recovery, slots, if tier.thorough() { 6 } else { 5 });
